@@ -660,9 +660,10 @@ class Machine:
             if isinstance(fv, Closure):
                 args_, kwargs_ = self.arguments(e)
                 return self.invoke(fv, args_, kwargs_)
-        if isinstance(e.func, (ast.Name, ast.Attribute)):
+        if isinstance(e.func, (ast.Name, ast.Attribute, ast.Call)):
             try:
-                fv_ = self.ev(e.func) if isinstance(e.func, ast.Name) and e.func.id in self.env else None
+                fv_ = self.ev(e.func) if (isinstance(e.func, ast.Name) and e.func.id in self.env) or (
+                    isinstance(e.func, ast.Call) and ast.unparse(e.func.func).split(".")[-1].lstrip("_") in ("methodcaller", "attrgetter", "itemgetter")) else None
             except AnalysisError:
                 fv_ = None
             if isinstance(fv_, OpHelper):
@@ -671,9 +672,9 @@ class Machine:
                     return self.apply_helper(fv_, args_[0], e)
         name, recv = self.callee(e.func)
         args, kwargs = self.arguments(e)
-        if name.split(".")[-1] in ("methodcaller", "attrgetter", "itemgetter") and name.split(".")[0] in ("operator", "methodcaller", "attrgetter", "itemgetter") \
+        if name.split(".")[-1].lstrip("_") in ("methodcaller", "attrgetter", "itemgetter") and name.split(".")[0].lstrip("_") in ("operator", "methodcaller", "attrgetter", "itemgetter") \
                 and args and all(isinstance(a_, (str, int)) for a_ in args[:1]):
-            k_ = name.split(".")[-1]
+            k_ = name.split(".")[-1].lstrip("_")
             if k_ == "methodcaller":
                 return OpHelper(k_, (args[0],), tuple(args[1:]), dict(kwargs))
             return OpHelper(k_, tuple(args))
